@@ -1032,4 +1032,84 @@ theorem netloc_brackets (v6ok : Str → Bool) (UI : Str) (hUI : ∀ x ∈ UI, uC
         rw [partition_found ']' h _ (ne_of_class hwf.2.1 ']' (by decide))]
       rw [hb]; exact hwf.2.2
 
+/-! ### patch_uri and urlparse on a rendered URI -/
+
+def amqpPrefix (tls : Bool) : Str :=
+  if tls then ['a', 'm', 'q', 'p', 's', ':', '/', '/'] else ['a', 'm', 'q', 'p', ':', '/', '/']
+
+theorem patchUri_amqp (tls : Bool) (r : Str) : patchUri (amqpPrefix tls ++ r) = httpPrefix tls ++ r := by
+  cases tls <;>
+    simp [amqpPrefix, httpPrefix, patchUri, Gen.Uri.patchTable, uptoColon, takeUntil, replaceFirst,
+      List.isPrefixOf]
+
+theorem renderPath_ok (v : Option Str) : PathOk (renderPath v) := by
+  cases v with
+  | none => exact Or.inl rfl
+  | some v => exact Or.inr ⟨quote v, rfl, quote_tok v⟩
+
+theorem render_eq (c : Components) :
+    render c = amqpPrefix c.tls ++ ((renderUserinfo c.user c.pass ++ (renderHost c.host ++ renderPort c.port)) ++
+      (renderPath c.vhost ++ renderQuery c.opts)) := by
+  simp only [render, amqpPrefix, List.append_assoc]
+
+/-- what `urlparse(patch_uri(uri))` reports for a URI rendered from well-formed components -/
+theorem urlparse_render' (v6ok : Str → Bool) (c : Components) (hwh : ∀ h, c.host = some h → h.WF v6ok) :
+    urlparse v6ok (patchUri (render c)) =
+      match portOf (c.port.map toDec) with
+      | .ok port => .ok
+        ⟨httpScheme c.tls, uiUser c.user c.pass, c.pass.map quote,
+         c.host.map (fun h => h.text.map Char.toLower), port, renderPath c.vhost, queryText c.opts⟩
+      | .error e => .error e := by
+  have hHP := renderHP_class v6ok c.host c.port hwh
+  have hUI := renderUserinfo_class c.user c.pass
+  have hNL : ∀ x ∈ renderUserinfo c.user c.pass ++ (renderHost c.host ++ renderPort c.port),
+      urlCh x = true ∧ netlocDelim x = false := by
+    intro x hx
+    rcases List.mem_append.1 hx with hx | hx
+    · refine ⟨urlCh_of_uCh x (hUI x hx), ?_⟩
+      have a := class_ne uCh x '/' (hUI x hx) (by decide)
+      have b := class_ne uCh x '?' (hUI x hx) (by decide)
+      have d := class_ne uCh x '#' (hUI x hx) (by decide)
+      simp [netlocDelim, a, b, d]
+    · refine ⟨urlCh_of_hpCh x (hHP x hx), ?_⟩
+      have a := class_ne hpCh x '/' (hHP x hx) (by decide)
+      have b := class_ne hpCh x '?' (hHP x hx) (by decide)
+      have d := class_ne hpCh x '#' (hHP x hx) (by decide)
+      simp [netlocDelim, a, b, d]
+  have hbr := netloc_brackets v6ok _ hUI c.host c.port hwh
+  have hsplit := urlsplit_parts v6ok c.tls _ (renderPath c.vhost) c.opts hNL hbr (renderPath_ok c.vhost)
+  have hui := userinfo_render c.user c.pass (renderHost c.host ++ renderPort c.port)
+    (ne_of_class hHP '@' (by decide))
+  have hhi := hostinfo_hp _ c.host c.port v6ok hwh hui.2
+  have hsemi : (renderPath c.vhost).contains ';' = false := by
+    apply contains_false
+    intro x hx
+    cases hv : c.vhost with
+    | none => simp [hv, renderPath] at hx
+    | some v =>
+      simp only [hv, renderPath, List.mem_cons] at hx
+      rcases hx with rfl | hx
+      · decide
+      · exact (tok_props x (quote_tok v x hx)).2.2.1
+  rw [render_eq, patchUri_amqp]
+  unfold urlparse
+  simp only [hsplit, bind, Except.bind, hsemi, Bool.and_false, Bool.false_eq_true, if_false, hui.1, hhi,
+    hostnameOf_host v6ok c.host hwh, pure, Except.pure]
+  cases portOf (c.port.map toDec) <;> rfl
+
+theorem portOf_toDec_big (n : Nat) (h : 65535 < n) : portOf (some (toDec n)) = .error .valueError := by
+  have hall : (toDec n).all Char.isDigit = true := by
+    simpa [List.all_eq_true] using toDec_digits n
+  simp [portOf, hall, digitsVal_toDec, Nat.not_le.2 h]
+
+theorem urlparse_render (v6ok : Str → Bool) (c : Components) (hw : c.WF v6ok) :
+    urlparse v6ok (patchUri (render c)) = .ok
+      ⟨httpScheme c.tls, uiUser c.user c.pass, c.pass.map quote,
+       c.host.map (fun h => h.text.map Char.toLower), c.port, renderPath c.vhost, queryText c.opts⟩ := by
+  have hport : portOf (c.port.map toDec) = .ok c.port := by
+    cases hp : c.port with
+    | none => rfl
+    | some n => exact portOf_toDec n (hw.port n hp).2
+  rw [urlparse_render' v6ok c hw.host, hport]
+
 end Amqp.Uri
